@@ -58,6 +58,22 @@ def opsCore (op : String) (a : List String) : Option String :=
       ++ " " ++ toString (H3.Gen.Bits.maxFaceCount h o32).toNat ++ " " ++ toString (H3.Gen.Bits.maxFaceCount_out_out h o32).toNat
       ++ " " ++ b (H3.Gen.Bits.isValidDirectedEdge_defined h u) ++ b (H3.Gen.Bits.getDirectedEdgeOrigin_defined h o)
       ++ b (H3.Gen.Bits.maxFaceCount_defined h o32))
+  | "genfn4", [pos, parent, r, k, o] => do
+    -- validateChildPos (static), getNumCells, maxGridDiskSize as translated by c2lean
+    let pos ← parseInt pos
+    let parent ← parseH parent
+    let r ← parseInt r
+    let k ← parseInt k
+    let o ← parseH o
+    let rb := BitVec.ofInt 32 r
+    let kb := BitVec.ofInt 32 k
+    let pb := BitVec.ofInt 64 pos
+    let b := fun (x : Bool) => if x then "1" else "0"
+    let vcp := if H3.Gen.Bits.validateChildPos_defined pb parent rb o then toString (H3.Gen.Bits.validateChildPos pb parent rb o).toNat else "-"
+    pure ("ok " ++ vcp
+      ++ " " ++ toString (H3.Gen.Bits.getNumCells rb o).toNat ++ " " ++ showH (H3.Gen.Bits.getNumCells_out_out rb o)
+      ++ " " ++ toString (H3.Gen.Bits.maxGridDiskSize kb o).toNat ++ " " ++ showH (H3.Gen.Bits.maxGridDiskSize_out_out kb o)
+      ++ " " ++ b (H3.Gen.Bits.getNumCells_defined rb o) ++ b (H3.Gen.Bits.maxGridDiskSize_defined kb o))
   | "mac", [h, r, d, v] => do
     let h ← parseH h
     let r ← r.toNat?
